@@ -143,7 +143,7 @@ CHECKS = {
             "=> the trajectory then fired is within the statement's bound of the sight line at the aim point, failed => stored zero "
             "bit-identical.",
             "Shots sampled (seeded); reachability and the miss bound are float predicates of the projection (bound per foot of down-range "
-            "distance over the steps between aim point and sample point); one open known finding (high-arc non-convergence).",
+            "distance over the steps between aim point and sample point); two open known findings of the zero finder (sampling discontinuity, high-arc slow convergence; known_findings.json).",
             "DESIGN.md §4 C02"),
 }
 
